@@ -179,7 +179,7 @@ where
     pub fn set_seed(mut self, seed: u64) -> Self {
         self.seed = seed;
         for (i, chain) in self.chains.iter_mut().enumerate() {
-            let chain_seed = seed + i as u64;
+            let chain_seed = seed.wrapping_add(i as u64);
             chain.seed = chain_seed;
             chain.rng = SmallRng::seed_from_u64(chain_seed);
         }
